@@ -1,8 +1,27 @@
-//! C05 — version graph (skeleton)
+//! C05 — version graph: `VersionGraph::resolve / get / apply_diffs` of /repo/src/version_graph.rs
+//! (compiled into this binary from the repository's source file; the binary crate has no library).
+//!
+//! For every generated directory (graph shape x edit history x file-creation order) the harness
+//!  * materialises it in a fresh scratch directory (removed at exit), in several creation orders
+//!    and on two file systems, and records the order `read_dir` really lists,
+//!  * runs the implementation and observes everything it offers (nodes, depths, root, adjacency,
+//!    every lookup, `apply_diffs` of every lookup name),
+//!  * runs the property oracle on the implementation alone (reference graph built from the file
+//!    names, fold of quill's own read/apply/extend along every shortest path, the history's own
+//!    expected mapping set, equality across creation orders, the malformed shapes),
+//!  * prints one correspondence case per listing for the Coq model (coq/C05/Run.v).
 #![allow(dead_code, unused_imports, deprecated)]
+use std::collections::{BTreeMap, BTreeSet, HashMap, VecDeque};
+use std::panic::AssertUnwindSafe;
+use std::path::{Path, PathBuf};
+use fbh::gal::*;
+use fbh::mapmodel::*;
+use fbh::prng::Rng;
+use fbh::report::{guarded, Report};
 use fbh::Ctx;
-use fbh::report::Report;
+use quill::tree::mappings::Mappings;
 
+// ---- what /repo/src/version_graph.rs imports from its crate root (src/main.rs, src/download/versions_manifest.rs)
 pub struct Official;
 pub struct Intermediary;
 pub struct Named;
@@ -10,12 +29,644 @@ pub mod download { pub mod versions_manifest {
 	#[derive(Debug, Clone, PartialEq, Hash, Eq)]
 	pub(crate) struct MinecraftVersion(pub(crate) String);
 } }
-
 mod version_graph { include!(concat!(env!("FBH_REPO"), "/src/version_graph.rs")); }
+use version_graph::{Split, VersionGraph};
 
-fn run(_ctx: &Ctx) -> anyhow::Result<Report> {
-	let g = version_graph::VersionGraph::resolve("/repo/tests/version-graph/graph")?;
-	for v in g.versions() { eprintln!("{} {}", v.as_str(), v.depth()); }
-	Ok(Report::new("C05", "C05.Run"))
+mod tdiff;
+
+type QM = Mappings<2, (Intermediary, Named)>;
+
+// =====================================================================================
+// scratch space
+// =====================================================================================
+struct Scratch { bases: Vec<PathBuf>, counter: u64 }
+impl Scratch {
+	fn new(seed: u64) -> anyhow::Result<Scratch> {
+		let mut bases = vec![];
+		for root in [PathBuf::from("/dev/shm"), std::env::temp_dir()] {
+			let p = root.join(format!("fbh-c05-{}-{}", std::process::id(), seed));
+			if std::fs::create_dir_all(&p).is_ok() { bases.push(p); }
+		}
+		if bases.is_empty() { anyhow::bail!("no scratch directory available"); }
+		Ok(Scratch { bases, counter: 0 })
+	}
+	fn fresh(&mut self, which: usize) -> anyhow::Result<PathBuf> {
+		self.counter += 1;
+		let p = self.bases[which % self.bases.len()].join(format!("d{}", self.counter));
+		std::fs::create_dir(&p)?;
+		Ok(p)
+	}
 }
+impl Drop for Scratch {
+	fn drop(&mut self) { for b in &self.bases { let _ = std::fs::remove_dir_all(b); } }
+}
+
+// =====================================================================================
+// directories
+// =====================================================================================
+#[derive(Clone)]
+struct FileSpec { name: String, content: String }
+
+/// the history a directory was produced from
+struct Hist {
+	names: Vec<String>,          // version string per node
+	maps: Vec<MMappings>,        // contracted mapping set per node
+	good: bool,                  // every map satisfies tdiff::good and every edge file transports its step
+	confluent: bool,             // every edge file p#v is the diff H(p) -> H(v)
+}
+struct DirSpec { kind: &'static str, files: Vec<FileSpec>, hist: Option<Hist>, queries: Vec<String> }
+
+const TINY: &str = ".tiny";
+const TINYDIFF: &str = ".tinydiff";
+
+fn keys_of(v: &str) -> Vec<String> { match v.split_once('~') { Some((a, b)) => vec![a.to_owned(), b.to_owned()], None => vec![v.to_owned()] } }
+
+/// reference reading of the file names (independent of the implementation)
+#[derive(Default)]
+struct RefGraph { versions: Vec<String>, roots: Vec<(String, usize)>, edges: Vec<(String, String, usize)>, bad_name: bool }
+impl RefGraph {
+	fn of(files: &[FileSpec]) -> RefGraph {
+		let mut g = RefGraph::default();
+		let mut add = |g: &mut RefGraph, v: &str| if !g.versions.iter().any(|x| x == v) { g.versions.push(v.to_owned()) };
+		for (i, f) in files.iter().enumerate() {
+			if let Some(v) = f.name.strip_suffix(TINY) { add(&mut g, v); g.roots.push((v.to_owned(), i)); }
+			else if let Some(raw) = f.name.strip_suffix(TINYDIFF) {
+				match raw.find('#') {
+					None => g.bad_name = true,
+					Some(p) => { let (a, b) = (&raw[..p], &raw[p + 1..]); add(&mut g, b); add(&mut g, a); g.edges.push((a.to_owned(), b.to_owned(), i)); }
+				}
+			}
+		}
+		g
+	}
+	fn well_formed(&self) -> bool {
+		let mut seen: HashMap<String, &String> = HashMap::new();
+		for v in &self.versions {
+			let ks = keys_of(v);
+			if ks.len() == 2 && ks[0] == ks[1] { return false; }
+			for k in ks { if let Some(o) = seen.insert(k, v) { if o != v { return false; } } }
+		}
+		true
+	}
+	fn succ(&self, v: &str) -> Vec<(&str, usize)> { self.edges.iter().filter(|e| e.0 == v).map(|e| (e.1.as_str(), e.2)).collect() }
+	/// a cycle reachable from `root`?
+	fn reachable_cycle(&self, root: &str) -> bool {
+		fn dfs<'a>(g: &'a RefGraph, v: &'a str, stack: &mut Vec<&'a str>, done: &mut BTreeSet<&'a str>) -> bool {
+			if stack.contains(&v) { return true; }
+			if done.contains(v) { return false; }
+			stack.push(v);
+			for (w, _) in g.succ(v) { if dfs(g, w, stack, done) { return true; } }
+			stack.pop(); done.insert(v);
+			false
+		}
+		dfs(self, root, &mut vec![], &mut BTreeSet::new())
+	}
+	fn dist(&self, root: &str) -> HashMap<String, usize> {
+		let mut d = HashMap::new(); d.insert(root.to_owned(), 0usize);
+		let mut q = VecDeque::from([root.to_owned()]);
+		while let Some(v) = q.pop_front() { let dv = d[&v]; for (w, _) in self.succ(&v) { if !d.contains_key(w) { d.insert(w.to_owned(), dv + 1); q.push_back(w.to_owned()); } } }
+		d
+	}
+	/// every shortest path root -> target, as the list of edge files walked
+	fn shortest_paths(&self, root: &str, target: &str) -> Vec<Vec<usize>> {
+		let d = self.dist(root);
+		let Some(&dt) = d.get(target) else { return vec![] };
+		let mut out = vec![];
+		fn go(g: &RefGraph, d: &HashMap<String, usize>, v: &str, target: &str, dt: usize, acc: &mut Vec<usize>, out: &mut Vec<Vec<usize>>) {
+			if v == target { out.push(acc.clone()); return; }
+			let dv = d[v];
+			if dv >= dt { return; }
+			for (w, f) in g.succ(v) { if d.get(w) == Some(&(dv + 1)) { acc.push(f); go(g, d, w, target, dt, acc, out); acc.pop(); } }
+		}
+		go(self, &d, root, target, dt, &mut vec![], &mut out);
+		out
+	}
+}
+
+// =====================================================================================
+// the composed operations, tabulated with quill itself
+// =====================================================================================
+#[derive(Default)]
+struct Tables {
+	maps: Vec<MMappings>,                         // id -> canonical mapping set
+	ids: HashMap<MMappings, u64>,
+	quill: Vec<QM>,                               // id -> the quill value first seen with that canonical form
+	tiny: BTreeMap<u64, u64>, contract: BTreeMap<u64, u64>, diff_ok: BTreeSet<u64>,
+	apply: BTreeMap<(u64, u64), u64>, extend: BTreeMap<u64, u64>,
+	capped: bool,
+}
+impl Tables {
+	fn intern(&mut self, q: &QM) -> u64 {
+		let mut desync = vec![];
+		let c = from_quill(q, &mut desync).canon();
+		if let Some(&i) = self.ids.get(&c) { return i; }
+		let i = self.maps.len() as u64;
+		self.ids.insert(c.clone(), i); self.maps.push(c); self.quill.push(q.clone());
+		i
+	}
+	fn id_of(&self, m: &MMappings) -> Option<u64> { self.ids.get(&m.canon()).copied() }
+	/// contents: distinct file contents (token = index)
+	fn build(contents: &[String], store: &Path, max_depth: usize) -> anyhow::Result<Tables> {
+		let mut t = Tables::default();
+		let mut diffs = vec![];
+		let mut start = vec![];
+		for (tok, c) in contents.iter().enumerate() {
+			let p = store.join(format!("c{tok}"));
+			std::fs::write(&p, c)?;
+			if let Ok(Ok(q)) = guarded(AssertUnwindSafe(|| quill::tiny_v2::read_file::<2, (Intermediary, Named)>(&p))) {
+				let i = t.intern(&q);
+				t.tiny.insert(tok as u64, i);
+				if let Ok(Ok(cq)) = guarded(AssertUnwindSafe(|| q.contract_inner_class_names("named"))) { let j = t.intern(&cq); t.contract.insert(i, j); start.push(j); }
+			}
+			if let Ok(Ok(d)) = guarded(AssertUnwindSafe(|| quill::tiny_v2_diff::read_file(&p))) { t.diff_ok.insert(tok as u64); diffs.push((tok as u64, d)); }
+		}
+		// closure of the contracted roots under every diff, to the depth of the longest possible path
+		let mut frontier: Vec<u64> = start.clone(); frontier.sort(); frontier.dedup();
+		let mut seen: BTreeSet<u64> = frontier.iter().copied().collect();
+		let mut calls = 0usize;
+		for _ in 0..max_depth {
+			let mut next = vec![];
+			for &m in &frontier {
+				for (tok, d) in &diffs {
+					calls += 1;
+					if calls > 4000 { t.capped = true; return Ok(t); }
+					let target = t.quill[m as usize].clone();
+					if let Ok(Ok(r)) = guarded(AssertUnwindSafe(|| d.apply_to::<2, (Intermediary, Named), (Intermediary, Named)>(target, "named"))) {
+						let j = t.intern(&r);
+						t.apply.insert((*tok, m), j);
+						if seen.insert(j) { next.push(j); }
+					}
+				}
+			}
+			if next.is_empty() { break; }
+			frontier = next;
+		}
+		for m in seen {
+			let q = t.quill[m as usize].clone();
+			if let Ok(Ok(e)) = guarded(AssertUnwindSafe(|| q.extend_inner_class_names("named"))) { let j = t.intern(&e); t.extend.insert(m, j); }
+		}
+		Ok(t)
+	}
+	fn gallina(&self) -> String {
+		format!("(mkTables {} {} {} {} {})",
+			glist(self.tiny.iter().map(|(a, b)| format!("({a},{b})"))),
+			glist(self.contract.iter().map(|(a, b)| format!("({a},{b})"))),
+			gnums(self.diff_ok.iter().copied()),
+			glist(self.apply.iter().map(|((a, b), c)| format!("({a},{b},{c})"))),
+			glist(self.extend.iter().map(|(a, b)| format!("({a},{b})"))))
+	}
+	/// the reference fold: root token, then the edge-file tokens in path order; None = Err
+	fn fold(&self, root_tok: u64, path: &[u64]) -> Option<u64> {
+		let mut m = *self.contract.get(self.tiny.get(&root_tok)?)?;
+		for d in path { if !self.diff_ok.contains(d) { return None; } m = *self.apply.get(&(*d, m))?; }
+		self.extend.get(&m).copied()
+	}
+}
+
+// =====================================================================================
+// the implementation, observed
+// =====================================================================================
+struct Obs {
+	nodes: Vec<(String, usize)>, root: usize, rootmap: QM,
+	children: Vec<Vec<usize>>, parents: Vec<Vec<usize>>,
+	gets: Vec<(String, Option<(u8, usize)>)>,
+	applies: Vec<(String, Option<QM>)>,
+}
+/// Ok(None) = resolve returned an error; Err = a panic
+fn observe(dir: &Path, queries: &[String]) -> Result<Option<Obs>, String> {
+	guarded(AssertUnwindSafe(|| {
+		let Ok(g) = VersionGraph::resolve(dir) else { return None };
+		let nodes: Vec<(String, usize)> = g.versions().map(|v| (v.as_str().to_owned(), v.depth())).collect();
+		let index = |name: &str| nodes.iter().position(|n| n.0 == name).expect("entry of an unknown node");
+		let mut root = usize::MAX; let mut rootmap = None;
+		let mut children = vec![]; let mut parents = vec![];
+		for v in g.versions() {
+			if let Some(m) = g.is_root_then_get_mappings(v) { root = index(v.as_str()); rootmap = Some(m.clone()); }
+			children.push(g.children(v).map(|c| index(c.as_str())).collect());
+			parents.push(g.parents(v).map(|c| index(c.as_str())).collect());
+		}
+		let mut gets = vec![]; let mut applies = vec![];
+		for q in queries {
+			match g.get(q) {
+				Err(_) => { gets.push((q.clone(), None)); applies.push((q.clone(), None)); }
+				Ok((split, v)) => {
+					let code = match split { Split::None => 0, Split::First => 1, Split::Second => 2 };
+					gets.push((q.clone(), Some((code, index(v.as_str())))));
+					applies.push((q.clone(), g.apply_diffs(v).ok()));
+				}
+			}
+		}
+		Some(Obs { nodes, root, rootmap: rootmap.expect("no node is the root"), children, parents, gets, applies })
+	}))
+}
+
+// =====================================================================================
+// generators
+// =====================================================================================
+fn version_name(rng: &mut Rng, i: usize, tricky: bool) -> String {
+	if tricky {
+		match rng.below(7) {
+			0 => format!("x{i}.tiny"), 1 => format!("v{i}.tinydiff"), 2 => format!("ü{i}"), 3 => format!("a{i}~b{i}~c{i}"),
+			4 => format!("{i}~"), 5 => format!("~{i}"), _ => format!("1.{i} pre"),
+		}
+	} else {
+		match rng.below(7) {
+			0 | 1 => format!("1.{i}"), 2 => format!("b1.{i}_0{i}"), 3 => format!("1{i}w0{i}a"),
+			4 => format!("1.{i}~server-0.{i}"), _ => format!("a1.{i}~s0.{i}"),
+		}
+	}
+}
+
+struct Shape { n: usize, edges: Vec<(usize, usize)>, tree_parent: Vec<Option<usize>>, kind: &'static str }
+fn gen_shape(rng: &mut Rng) -> Shape {
+	let n = rng.range(1, 7);
+	let which = rng.below(10);
+	let mut edges = vec![]; let mut tree_parent = vec![None; n];
+	for i in 1..n {
+		let p = if which < 2 { i - 1 } else { rng.below(i) };
+		edges.push((p, i)); tree_parent[i] = Some(p);
+	}
+	let mut kind = if which < 2 { "chain" } else { "tree" };
+	if which >= 6 && n >= 3 {
+		// extra forward edges: diamonds and shortcuts
+		for _ in 0..rng.range(1, 3) {
+			let c = rng.range(2, n - 1); let p = rng.below(c);
+			if !edges.contains(&(p, c)) { edges.push((p, c)); kind = "dag"; }
+		}
+	}
+	Shape { n, edges, tree_parent, kind }
+}
+
+fn root_text(m: &MMappings) -> Option<String> {
+	let q: QM = to_quill(m).ok()?;
+	let e = guarded(AssertUnwindSafe(|| q.extend_inner_class_names("named"))).ok()?.ok()?;
+	quill::tiny_v2::write_string(&e).ok()
+}
+fn plain_text(m: &MMappings) -> Option<String> { let q: QM = to_quill(m).ok()?; quill::tiny_v2::write_string(&q).ok() }
+
+/// does the text of an edge file really transport A to B through quill's reader and apply?
+fn transports(store: &Path, text: &str, a: &MMappings, b: &MMappings) -> bool {
+	let p = store.join("probe");
+	if std::fs::write(&p, text).is_err() { return false; }
+	let Ok(qa) = to_quill::<2, (Intermediary, Named)>(a) else { return false };
+	let Ok(Ok(d)) = guarded(AssertUnwindSafe(|| quill::tiny_v2_diff::read_file(&p))) else { return false };
+	let Ok(Ok(r)) = guarded(AssertUnwindSafe(|| d.apply_to::<2, (Intermediary, Named), (Intermediary, Named)>(qa, "named"))) else { return false };
+	let mut ds = vec![];
+	from_quill(&r, &mut ds).equiv(b)
+}
+
+fn gen_dir(rng: &mut Rng, r: &mut Report, store: &Path) -> DirSpec {
+	let sel = rng.below(100);
+	let shape = gen_shape(rng);
+	let n = shape.n;
+	let tricky = rng.chance(1, 8);
+	let mut names: Vec<String> = vec![];
+	for i in 0..n { let t = tricky && rng.chance(1, 2); names.push(version_name(rng, i, t)); }
+	// a node that is nobody's parent may carry a `#` in its name (the file name is split at the first `#`)
+	for i in 1..n { if tricky && rng.chance(1, 4) && !shape.edges.iter().any(|e| e.0 == i) { names[i] = format!("{}#x", names[i]); } }
+	let sloppy = sel >= 90 && sel < 94;
+	let mut maps = vec![tdiff::gen_root(rng, sloppy)];
+	let mut counts: Vec<String> = vec![];
+	for i in 1..n {
+		let mut m = maps[shape.tree_parent[i].unwrap()].clone();
+		for _ in 0..rng.below(5) { tdiff::edit(rng, &mut m, &mut |k| counts.push(k.to_owned())); }
+		maps.push(m);
+	}
+	for k in counts { r.count(&k); }
+	let mut good = maps.iter().all(tdiff::good);
+	let mut confluent = true;
+	let mut kind = shape.kind;
+	let mut files = vec![];
+	// root file: the extended form, written by quill
+	let root_content = match root_text(&maps[0]) { Some(t) => t, None => { good = false; plain_text(&maps[0]).unwrap_or_else(|| "tiny\t2\t0\tofficial\tnamed\n".into()) } };
+	files.push(FileSpec { name: format!("{}{TINY}", names[0]), content: root_content });
+	let mut edge_file = |rng: &mut Rng, p: usize, c: usize, target: &MMappings, good: &mut bool, maps: &[MMappings]| -> FileSpec {
+		let content = match tdiff::diff(&maps[p], target, rng.chance(1, 4)) {
+			Ok(d) => { let t = tdiff::print(&d, rng); if !transports(store, &t, &maps[p], target) { *good = false; r.count("edge-file-does-not-transport"); } t }
+			Err(_) => { *good = false; r.count("step-not-expressible"); "tiny\t2\t0\n".into() }
+		};
+		FileSpec { name: format!("{}#{}{TINYDIFF}", names[p], names[c]), content }
+	};
+	let nonconfluent = shape.kind == "dag" && rng.chance(1, 3);
+	for (k, &(p, c)) in shape.edges.iter().enumerate() {
+		let extra = k >= n - 1;
+		if extra && nonconfluent {
+			// the extra edge leads to a different mapping set than the tree path does
+			let mut other = maps[c].clone();
+			for _ in 0..rng.range(1, 3) { tdiff::edit(rng, &mut other, &mut |_| {}); }
+			if !other.equiv(&maps[c]) { confluent = false; kind = "dag-nonconfluent"; }
+			files.push(edge_file(rng, p, c, &other, &mut good, &maps));
+		} else {
+			let t = maps[c].clone();
+			files.push(edge_file(rng, p, c, &t, &mut good, &maps));
+		}
+	}
+	let mut queries: Vec<String> = vec![];
+	let mut hist_ok = true;
+	// ---- variations
+	match sel {
+		0..=54 => {}
+		55..=59 => { // a version that is not reachable from the root: a parent of the root, or a separate component
+			let u = version_name(rng, 20, false); let w = version_name(rng, 21, false);
+			let mut mu = maps[0].clone(); tdiff::edit(rng, &mut mu, &mut |_| {});
+			let to = if rng.chance(1, 2) { names[rng.below(n)].clone() } else { w.clone() };
+			let content = tdiff::diff(&mu, &maps[0], false).map(|d| tdiff::print(&d, rng)).unwrap_or_else(|_| "tiny\t2\t0\n".into());
+			files.push(FileSpec { name: format!("{u}#{to}{TINYDIFF}"), content });
+			kind = "unreachable"; hist_ok = false;
+		}
+		60..=64 => { files.remove(0); kind = "no-root"; hist_ok = false; }
+		65..=69 => { // a second root
+			let v = if rng.chance(1, 2) && n > 1 { names[rng.range(1, n - 1)].clone() } else { version_name(rng, 30, false) };
+			files.push(FileSpec { name: format!("{v}{TINY}"), content: files[0].content.clone() });
+			kind = "two-roots"; hist_ok = false;
+		}
+		70..=77 => { // a cycle: back edge to an ancestor (reachable), a self loop, or a cycle off the root's component
+			let style = rng.below(4);
+			let empty = "tiny\t2\t0\n".to_owned();
+			if style == 0 { let i = rng.below(n); files.push(FileSpec { name: format!("{0}#{0}{TINYDIFF}", names[i]), content: empty }); kind = "cycle-self"; }
+			else if style == 1 && n >= 2 {
+				let i = rng.range(1, n - 1); let mut a = i; let hops = rng.below(3); for _ in 0..hops { if let Some(p) = shape.tree_parent[a] { a = p; } }
+				if a == i { a = shape.tree_parent[i].unwrap(); }
+				files.push(FileSpec { name: format!("{}#{}{TINYDIFF}", names[i], names[a]), content: empty }); kind = "cycle-back";
+			} else if style == 2 {
+				let u = version_name(rng, 40, false); let w = version_name(rng, 41, false);
+				files.push(FileSpec { name: format!("{u}#{w}{TINYDIFF}"), content: empty.clone() });
+				files.push(FileSpec { name: format!("{w}#{u}{TINYDIFF}"), content: empty }); kind = "cycle-unreachable";
+			} else { let i = rng.below(n); files.push(FileSpec { name: format!("{}#{}{TINYDIFF}", names[i], names[0]), content: empty }); kind = "cycle-through-root"; }
+			hist_ok = false;
+		}
+		78..=80 => { files.push(FileSpec { name: format!("{}{TINYDIFF}", version_name(rng, 50, false)), content: "tiny\t2\t0\n".into() }); kind = "diff-name-without-hash"; hist_ok = false; }
+		81..=84 => { // unreadable contents
+			match rng.below(3) {
+				0 => { files[0].content = "this is not a tiny file\n".into(); kind = "root-garbage"; }
+				1 => { files[0].content = "tiny\t2\t0\tofficial\tintermediary\nc\ta\tb\n".into(); kind = "root-without-named-namespace"; }
+				_ => { if files.len() > 1 { let i = rng.range(1, files.len() - 1); files[i].content = "tiny\t2\t0\nc\n".into(); kind = "diff-garbage"; } }
+			}
+			hist_ok = false;
+		}
+		85..=89 => { // lookup-name collisions: outside well_formed, correspondence only
+			let i = rng.below(n);
+			let ks = keys_of(&names[i]);
+			let k = rng.pick(&ks[..]).clone();
+			let other = match rng.below(4) { 0 => format!("{k}~zz"), 1 => format!("zz~{k}"), 2 => k.clone(), _ => format!("{k}~{k}") };
+			let p = names[rng.below(n)].clone();
+			if rng.chance(1, 2) { files.push(FileSpec { name: format!("{p}#{other}{TINYDIFF}"), content: "tiny\t2\t0\n".into() }); }
+			else { files.push(FileSpec { name: format!("{other}#{p}{TINYDIFF}"), content: "tiny\t2\t0\n".into() }); }
+			kind = "collision"; hist_ok = false;
+		}
+		90..=93 => { kind = "sloppy-history"; }
+		_ => { // files the scanner ignores
+			for nm in ["README.md", "x.tiny.bak", "notes.txt", ".tinydif"] { if rng.chance(1, 2) { files.push(FileSpec { name: nm.into(), content: "ignored".into() }); } }
+			kind = "ignored-files";
+		}
+	}
+	for v in &names { queries.extend(keys_of(v)); queries.push(v.clone()); }
+	for f in &files { let g = RefGraph::of(std::slice::from_ref(f)); for v in g.versions { queries.extend(keys_of(&v)); } }
+	queries.push("unknown".into()); queries.push(String::new()); queries.push("1.0~".into());
+	queries.sort(); queries.dedup();
+	// a directory cannot hold two files of the same name
+	let mut uniq: Vec<FileSpec> = vec![];
+	for f in files { if !uniq.iter().any(|g| g.name == f.name) { uniq.push(f); } }
+	let files = uniq;
+	let hist = if hist_ok { Some(Hist { names, maps, good, confluent }) } else { None };
+	DirSpec { kind, files, hist, queries }
+}
+
+// =====================================================================================
+// one directory through everything
+// =====================================================================================
+/// what must not depend on the creation order
+#[derive(PartialEq, Debug)]
+struct Summary {
+	ok: bool, nodes: BTreeMap<String, usize>, root: String, edges: Vec<(String, String)>,
+	gets: Vec<(String, Option<(u8, String)>)>, answers: Vec<(String, Option<u64>)>,
+	/// every version has exactly one candidate answer (all shortest paths fold to the same result)
+	deterministic: bool,
+}
+
+fn replay_text(spec: &DirSpec, order: &[usize], listing: &[String], what: &str) -> String {
+	let mut s = format!("property C05\nwhat: {what}\nkind: {}\nfiles created in this order (name, then content):\n", spec.kind);
+	for &i in order { s.push_str(&format!("--- {:?}\n{}", spec.files[i].name, spec.files[i].content)); if !spec.files[i].content.ends_with('\n') { s.push('\n'); } }
+	s.push_str(&format!("--- listing order seen by read_dir: {:?}\n", listing));
+	s
+}
+
+fn materialise(dir: &Path, spec: &DirSpec, order: &[usize], rename: bool, rng: &mut Rng) -> anyhow::Result<Vec<String>> {
+	if rename {
+		// create under temporary names, then rename in another order (a rename re-inserts the entry)
+		for &i in order { std::fs::write(dir.join(format!("tmp{i}")), &spec.files[i].content)?; }
+		let mut o2 = order.to_vec(); rng.shuffle(&mut o2);
+		for &i in &o2 { std::fs::rename(dir.join(format!("tmp{i}")), dir.join(&spec.files[i].name))?; }
+	} else {
+		for &i in order { std::fs::write(dir.join(&spec.files[i].name), &spec.files[i].content)?; }
+	}
+	let mut listing = vec![];
+	for e in std::fs::read_dir(dir)? { listing.push(e?.file_name().into_string().map_err(|_| anyhow::anyhow!("file name"))?); }
+	Ok(listing)
+}
+
+fn through(spec: &DirSpec, scratch: &mut Scratch, rng: &mut Rng, r: &mut Report, orders: usize) -> anyhow::Result<()> {
+	// distinct contents -> tokens; tables by quill
+	let mut contents: Vec<String> = vec![];
+	let tok = |contents: &mut Vec<String>, c: &String| -> u64 { match contents.iter().position(|x| x == c) { Some(i) => i as u64, None => { contents.push(c.clone()); (contents.len() - 1) as u64 } } };
+	let toks: Vec<u64> = spec.files.iter().map(|f| tok(&mut contents, &f.content)).collect();
+	let store = scratch.fresh(0)?;
+	let ndiff = spec.files.iter().filter(|f| f.name.ends_with(TINYDIFF)).count();
+	let mut tables = Tables::build(&contents, &store, ndiff + 1)?;
+	std::fs::remove_dir_all(&store)?;
+	if tables.capped { r.count("skipped:apply-closure-too-large"); return Ok(()); }
+
+	let refg = RefGraph::of(&spec.files);
+	let wf = refg.well_formed();
+	r.count(&format!("kind:{}", spec.kind));
+	r.count(if wf { "well-formed" } else { "not-well-formed" });
+	r.count(&format!("nodes:{}", refg.versions.len()));
+
+	let mut summaries: Vec<(Summary, Vec<usize>, Vec<String>)> = vec![];
+	let mut seen_listings: BTreeSet<Vec<String>> = BTreeSet::new();
+	for k in 0..orders {
+		let mut order: Vec<usize> = (0..spec.files.len()).collect();
+		if k > 0 { rng.shuffle(&mut order); }
+		let dir = scratch.fresh(if k == orders - 1 { 1 } else { 0 })?;
+		let listing = materialise(&dir, spec, &order, k == 2, rng)?;
+		let obs = observe(&dir, &spec.queries);
+		std::fs::remove_dir_all(&dir)?;
+		if !seen_listings.insert(listing.clone()) { r.count("listing-order-repeated"); continue; }
+		r.count("listing-order-distinct");
+		let vio = |r: &mut Report, what: String| { let t = replay_text(spec, &order, &listing, &what); r.violation(what, t); };
+		let obs = match obs { Err(p) => { vio(r, format!("VersionGraph panicked: {p}")); continue; } Ok(o) => o };
+
+		// ---- correspondence case
+		let by_name = |n: &String| spec.files.iter().position(|f| &f.name == n).expect("listed file");
+		let mut strs: Vec<String> = vec![];
+		let mut sid = |x: &str| -> usize { match strs.iter().position(|y| y == x) { Some(i) => i, None => { strs.push(x.to_owned()); strs.len() - 1 } } };
+		let d = glist(listing.iter().map(|n| format!("({},{})", sid(n), toks[by_name(n)])));
+		let view = obs.as_ref().map(|o| {
+			let rootmap = tables.intern(&o.rootmap);
+			let applies: Vec<(String, Option<u64>)> = o.applies.iter().map(|(q, a)| (q.clone(), a.as_ref().map(|m| tables.intern(m)))).collect();
+			let ll = |v: &Vec<Vec<usize>>| glist(v.iter().map(|l| gnums(l.iter().map(|&x| x as u64))));
+			format!("(mkView {} {} {} {} {} {} {})",
+				glist(o.nodes.iter().map(|(n, dep)| format!("({},{})", sid(n), dep))),
+				o.root, rootmap, ll(&o.children), ll(&o.parents),
+				glist(o.gets.iter().map(|(q, g)| format!("({},{})", sid(q), gopt(g.map(|(s, i)| format!("({s},{i})")))))),
+				glist(applies.iter().map(|(q, a)| format!("({},{})", sid(q), gres(a.map(|x| x.to_string()))))))
+		});
+		// the tables may have grown by interning answers; they are printed after the view is built
+		let case = format!("CDir {} {} {} {}", glist(strs.iter().map(|x| gstr(&cps_str(x)))), d, tables.gallina(), gres(view));
+		let nontrivial = obs.as_ref().map_or(false, |o| o.nodes.len() >= 2);
+		r.eval(&format!("{:?}|{:?}", listing, toks), nontrivial);
+		r.case(spec.kind, case);
+		r.count(if obs.is_some() { "resolve:ok" } else { "resolve:err" });
+
+		// ---- property oracle (well-formed directories)
+		if !wf { continue; }
+		let root_tok = refg.roots.first().map(|(_, i)| toks[*i]);
+		let root_loads = root_tok.map_or(false, |t| tables.tiny.get(&t).and_then(|i| tables.contract.get(i)).is_some());
+		let expect_err = refg.roots.len() != 1 || refg.bad_name || !root_loads || refg.reachable_cycle(&refg.roots[0].0);
+		let Some(o) = obs else {
+			if !expect_err { vio(r, "resolve returned an error for a directory with exactly one readable root, well-formed names and no cycle reachable from the root".into()); }
+			r.count("oracle:malformed-is-error");
+			summaries.push((Summary { ok: false, nodes: BTreeMap::new(), root: String::new(), edges: vec![], gets: vec![], answers: vec![], deterministic: true }, order, listing));
+			continue;
+		};
+		if expect_err {
+			let why = if refg.roots.is_empty() { "no root" } else if refg.roots.len() > 1 { "two roots" } else if refg.bad_name { "a .tinydiff name without #" } else if !root_loads { "an unreadable root file" } else { "a cycle reachable from the root" };
+			vio(r, format!("resolve succeeded on a malformed directory ({why})"));
+			continue;
+		}
+		let rootname = &refg.roots[0].0;
+		// nodes = versions; root; depths = distance from the root (0 when unreachable)
+		let mut names: Vec<&String> = o.nodes.iter().map(|n| &n.0).collect(); names.sort();
+		let mut want: Vec<&String> = refg.versions.iter().collect(); want.sort();
+		if names != want { vio(r, format!("nodes {:?} differ from the versions named by the files {:?}", names, want)); }
+		if &o.nodes[o.root].0 != rootname { vio(r, format!("root is {:?}, the .tiny file names {:?}", o.nodes[o.root].0, rootname)); }
+		let dist = refg.dist(rootname);
+		for (nm, dep) in &o.nodes { let w = dist.get(nm).copied().unwrap_or(0); if *dep != w { vio(r, format!("depth of {nm:?} is {dep}, its distance from the root is {w}")); } }
+		// adjacency
+		let mut got_edges: Vec<(String, String)> = vec![];
+		for (i, ch) in o.children.iter().enumerate() { for &c in ch { got_edges.push((o.nodes[i].0.clone(), o.nodes[c].0.clone())); } }
+		got_edges.sort();
+		let mut want_edges: Vec<(String, String)> = refg.edges.iter().map(|e| (e.0.clone(), e.1.clone())).collect(); want_edges.sort();
+		if got_edges != want_edges { vio(r, format!("edges {:?} differ from the .tinydiff file names {:?}", got_edges, want_edges)); }
+		// lookups: every plain version under its name, every a~b under either half, nothing else
+		let mut gets_named = vec![];
+		for (q, g) in &o.gets {
+			let want: Option<(u8, &String)> = refg.versions.iter().find_map(|v| match v.split_once('~') {
+				None => if v == q { Some((0u8, v)) } else { None },
+				Some((a, b)) => if a == q { Some((1, v)) } else if b == q { Some((2, v)) } else { None },
+			});
+			let got = g.map(|(s, i)| (s, &o.nodes[i].0));
+			if got != want { vio(r, format!("get({q:?}) = {:?}, expected {:?}", got, want)); }
+			gets_named.push((q.clone(), got.map(|(s, n)| (s, n.clone()))));
+		}
+		r.count("oracle:lookup");
+		// apply_diffs: one of the folds along a shortest path; the history's own mapping set
+		let mut answers = vec![];
+		let mut deterministic = true;
+		for ((q, a), (_, g)) in o.applies.iter().zip(o.gets.iter()) {
+			let Some((_, i)) = g else { continue };
+			let v = &o.nodes[*i].0;
+			let paths = refg.shortest_paths(rootname, v);
+			let got: Option<u64> = a.as_ref().map(|m| tables.intern(m));
+			answers.push((q.clone(), got));
+			if paths.is_empty() {
+				if got.is_some() { vio(r, format!("apply_diffs({q:?}) answered for version {v:?}, which is not reachable from the root")); }
+				r.count("oracle:unreachable-is-error");
+				continue;
+			}
+			let cands: Vec<Option<u64>> = paths.iter().map(|p| tables.fold(root_tok.unwrap(), &p.iter().map(|&f| toks[f]).collect::<Vec<_>>())).collect();
+			if cands.iter().any(|c| c != &cands[0]) { deterministic = false; }
+			if !cands.contains(&got) { vio(r, format!("apply_diffs({q:?}) (version {v:?}) is not the fold of the diffs along any of the {} shortest paths from the root", paths.len())); }
+			r.count(if paths.len() > 1 { "oracle:fold-membership-multipath" } else { "oracle:fold-single-path" });
+			if let Some(h) = &spec.hist {
+				if h.good && h.confluent {
+					let hv = &h.maps[h.names.iter().position(|x| x == v).expect("version of the history")];
+					let want = tdiff::ref_extend(hv);
+					let same = match (&want, a) { (Some(w), Some(m)) => { let mut ds = vec![]; from_quill(m, &mut ds).equiv(w) } (None, None) => true, _ => false };
+					if !same { vio(r, format!("apply_diffs({q:?}) differs from the inner-class-extended mapping set the history has for version {v:?}")); }
+					r.count("oracle:history-sound");
+				}
+			}
+		}
+		let mut nodes = BTreeMap::new(); for (nm, dep) in &o.nodes { nodes.insert(nm.clone(), *dep); }
+		summaries.push((Summary { ok: true, nodes, root: rootname.clone(), edges: got_edges, gets: gets_named, answers, deterministic }, order, listing));
+	}
+	// ---- listing-order independence
+	if wf && summaries.len() >= 2 {
+		let confluent = summaries.iter().all(|s| s.0.deterministic);
+		for k in 1..summaries.len() {
+			let (a, b) = (&summaries[0].0, &summaries[k].0);
+			let same = a.ok == b.ok && a.nodes == b.nodes && a.root == b.root && a.edges == b.edges && a.gets == b.gets && (!confluent || a.answers == b.answers);
+			if !same {
+				let what = format!("the result depends on the listing order: {:?} versus {:?}", summaries[0].2, summaries[k].2);
+				let t = replay_text(spec, &summaries[k].1, &summaries[k].2, &what); r.violation(what, t);
+			}
+			r.count(if confluent { "oracle:order-independent-with-answers" } else { "oracle:order-independent-graph" });
+		}
+	}
+	Ok(())
+}
+
+/// the repository's own fixture, through the same machinery
+fn fixture(repo: &Path) -> anyhow::Result<DirSpec> {
+	let dir = repo.join("tests/version-graph/graph");
+	let mut files = vec![];
+	for e in std::fs::read_dir(&dir)? { let e = e?; files.push(FileSpec { name: e.file_name().into_string().unwrap(), content: std::fs::read_to_string(e.path())? }); }
+	files.sort_by(|a, b| a.name.cmp(&b.name));
+	let mut queries = vec![];
+	for v in RefGraph::of(&files).versions { queries.extend(keys_of(&v)); queries.push(v); }
+	queries.push("unknown".into()); queries.sort(); queries.dedup();
+	Ok(DirSpec { kind: "repo-fixture", files, hist: None, queries })
+}
+
+fn parse_replay(text: &str) -> DirSpec {
+	let mut files: Vec<FileSpec> = vec![];
+	let mut cur: Option<FileSpec> = None;
+	for line in text.split_inclusive('\n') {
+		if let Some(rest) = line.strip_prefix("--- ") {
+			if let Some(f) = cur.take() { files.push(f); }
+			let rest = rest.trim_end();
+			if rest.starts_with('"') && rest.ends_with('"') && rest.len() >= 2 {
+				let name = rest[1..rest.len() - 1].replace("\\\"", "\"").replace("\\\\", "\\");
+				cur = Some(FileSpec { name, content: String::new() });
+			}
+		} else if line.starts_with("reproduce: ") { break; }
+		else if let Some(f) = cur.as_mut() { f.content.push_str(line); }
+	}
+	if let Some(f) = cur.take() { files.push(f); }
+	let mut uniq: Vec<FileSpec> = vec![];
+	for f in files { if !uniq.iter().any(|g| g.name == f.name) { uniq.push(f); } }
+	let mut queries = vec![];
+	for v in RefGraph::of(&uniq).versions { queries.extend(keys_of(&v)); queries.push(v); }
+	queries.push("unknown".into()); queries.sort(); queries.dedup();
+	DirSpec { kind: "replay", files: uniq, hist: None, queries }
+}
+
+pub fn run(ctx: &Ctx) -> anyhow::Result<Report> {
+	let mut r = Report::new("C05", "C05.Run");
+	r.shard_size = 220;
+	let mut rng = Rng::new(ctx.seed);
+	let mut scratch = Scratch::new(ctx.seed)?;
+	let repo = PathBuf::from(std::env::var("VERIF_REPO").unwrap_or_else(|_| "/repo".into()));
+	r.rule = "directories = rooted version graphs (chains, trees, DAGs with diamonds and shortcuts, confluent and non-confluent; plain and client~server names, tricky names) x edit histories on mapping sets (renames, additions, removals, comment edits at class/field/method/parameter level; edge files printed by the harness' own .tinydiff printer, root file written by quill) x file-creation orders (3-4 per directory: as generated, shuffled, shuffled with renames, and one on a second file system), plus the malformed shapes (no root, two roots, reachable/unreachable cycles, unreachable versions, unknown names, bad file names, unreadable contents) and lookup-name collisions. One correspondence case per distinct listing order actually observed through read_dir. Non-trivial = resolve succeeds with at least two nodes; distinct by (listing order, contents).".into();
+	r.notes.push(format!("scratch directories: {:?} (removed at exit)", scratch.bases));
+	if let Some(path) = &ctx.replay {
+		// a replay file written by an earlier run: the files between the `--- "name"` markers
+		let spec = parse_replay(&std::fs::read_to_string(path)?);
+		r.notes.push(format!("replay of {:?}: {} files", path, spec.files.len()));
+		through(&spec, &mut scratch, &mut rng, &mut r, 4)?;
+		return Ok(r);
+	}
+	let fx = fixture(&repo)?;
+	through(&fx, &mut scratch, &mut rng, &mut r, 4)?;
+	let n = if ctx.thorough { 8000 } else { 1000 };
+	for _ in 0..n {
+		let store = scratch.fresh(0)?;
+		let spec = gen_dir(&mut rng, &mut r, &store);
+		std::fs::remove_dir_all(&store)?;
+		through(&spec, &mut scratch, &mut rng, &mut r, 4)?;
+	}
+	Ok(r)
+}
+
 fn main() -> anyhow::Result<()> { fbh::main_with(run) }
